@@ -346,6 +346,7 @@ func (x *Exec) applyContract(c *Contract, args []Value, st *State, pc *Term) Val
 	x.seq++
 	tag := fmt.Sprintf("%s%d", sanitize(c.Fn.Name()), x.seq)
 	mods := x.resolveMods(c.Modifies, args, st, nil)
+	mods = append(mods, x.unmodelledMods(args, st)...)
 	fresh := x.havoc(mods, st, tag)
 	var results []Value
 	var res Value
@@ -569,6 +570,10 @@ func (x *Exec) frameGoals(pre Heap, post Heap, mods []modEntry, skip func(o *Obj
 					return
 				}
 			}
+			if x.ld.unmodelled(o, path) {
+				x.unmodelledWritten[name] = true
+				return
+			}
 			if sa, ok := a.(*StructV); ok {
 				sc := c.(*StructV)
 				var st *types.Struct
@@ -649,6 +654,7 @@ func (ld *Loaded) verifyContract(c *Contract, useContracts bool) (vcs []*VC, err
 		x.obligs = nil
 		mods := x.resolveMods(c.Modifies, inst.args, st, nil)
 		rv, rst := x.run(c.Fn, inst.args, &State{h: st.h.clone()}, x.b.True())
+		retCond := x.retCond
 		var results []Value
 		switch t := rv.(type) {
 		case nil:
@@ -667,9 +673,11 @@ func (ld *Loaded) verifyContract(c *Contract, useContracts bool) (vcs []*VC, err
 				name = "ensures[" + cl.Label + "]"
 			}
 			r := x.evalPred(cl.Fn, inst.args, pre, rst, nil, results).(*Term)
-			q.Goals = append(q.Goals, NamedTerm{name, r})
+			q.Goals = append(q.Goals, NamedTerm{name, x.b.Implies(retCond, r)})
 		}
-		q.Goals = append(q.Goals, x.frameGoals(pre, rst.h, mods, nil)...)
+		for _, g := range x.frameGoals(pre, rst.h, mods, nil) {
+			q.Goals = append(q.Goals, NamedTerm{g.Name, x.b.Implies(retCond, g.T)})
+		}
 		q.Goals = append(q.Goals, x.obligs...)
 		q.Hyps = x.hyps
 		name := c.Key
@@ -689,4 +697,29 @@ func (x *Exec) setupGhost(pkg *ssa.Package, st *State) {
 	}
 	x.gobj = x.newObj("ghost", gt)
 	st.h[x.gobj] = x.symV(gt, "G", st.h)
+}
+
+// unmodelledMods: the unmodelled fields of every struct reachable through a
+// pointer argument are part of every callee's frame.
+func (x *Exec) unmodelledMods(args []Value, st *State) []modEntry {
+	var out []modEntry
+	for _, a := range args {
+		p, ok := a.(*PtrV)
+		if !ok || p.Obj == nil || len(p.Path) != 0 {
+			continue
+		}
+		sv, ok := st.h[p.Obj].(*StructV)
+		if !ok {
+			continue
+		}
+		for i := range sv.F {
+			if x.ld.unmodelled(p.Obj, []PE{{Field: i}}) {
+				switch sv.F[i].(type) {
+				case *Term, *StructV:
+					out = append(out, modEntry{obj: p.Obj, path: []PE{{Field: i}}})
+				}
+			}
+		}
+	}
+	return out
 }
